@@ -8,8 +8,8 @@ MA = "solver-based symbolic execution of rustc MIR (mirsym Mode A: MIR -> SMT-LI
 MB = "solver-decided call-order / error-propagation obligations over the MIR control-flow graph (mirsym Mode B: path-existence queries in SMT, z3 + cvc5)"
 
 C = {
- "C02": ("other", MB, "mirsym", "Decides only that the SHA-256 recorded for a file is always a digest of the hashed bytes (must-call obligation over ShaGenerator::finalize's MIR); the xorb / file-record consistency part of C02 could not be brought through CBMC and is stated as outside.", "Trusted: MIR as printed by rustc nightly, sha2, tokio JoinHandle contract; paths over-approximated (unsat sound)."),
- "C03": ("other", MA + " (data-flow provenance) ; " + MB, "mirsym", "Decides by symbolic execution of the MIR that the pointer's hash is exactly file_node_hash(the FileDeduper's accumulated chunk list, the configured repo salt), its size exactly the total_bytes metric, and that every successful process_chunks call appends (hash, len) of each chunk once. Independence of the chunk list from the add_data partition is C04 + C14 (tiling); total_bytes == bytes fed is C14.", "file_node_hash deterministic (blake3, not decided); concurrency of cleaners and an end-to-end two-run comparison are outside."),
+ "C02": ("other", MB, "mirsym", "Decides (a) that the SHA-256 recorded for a file is always a digest of the hashed bytes (must-call obligation over ShaGenerator::finalize's MIR) and (b) the single-step facts that keep FileDeduper's open-xorb bookkeeping consistent (Mode A): a cut resets chunk buffer / byte counter / hash lookup / placeholder registry and resolves every registered segment to the new xorb's hash; an append adds the chunk's length once, registers it under its own index and registers the placeholder segment; a self-referencing segment is registered; the byte count of an in-xorb run is the sum of the referenced chunks. Violations are confirmed natively by an independent validator of everything a session stored.", "Trusted: MIR as printed by rustc nightly, sha2, tokio JoinHandle contract; calls havocked; the global statement over whole dedup histories, verification hashes and xorb naming (C06) are outside (the FileDeduper harness is infeasible under CBMC)."),
+ "C03": ("other", MA + " (data-flow provenance) ; " + MB, "mirsym", "Decides by symbolic execution of the MIR that the pointer's hash is exactly file_node_hash(the FileDeduper's accumulated chunk list, the configured repo salt), its size exactly the total_bytes metric, that every successful process_chunks call appends (hash, len) of each chunk once, and (Mode B + provenance) that the hash of a non-empty chunk list is the blake3 keyed hash under the caller's salt of the merkle root. Partition independence and the size half rest on the chunker's resumption step (C04's Mode A obligation) and the conservation / tiling steps (C14's obligations), which are part of this check.", "blake3 / merkle root deterministic (not decided); concurrency of cleaners and an end-to-end two-run comparison are outside."),
  "C04": ("model_checking", MA + "; " + KANI, "kani+mirsym", "mirsym Mode A: one call of Chunker::next from ANY state satisfying the representation invariant, any min < max, any rolling-hash answer: skip of min-64-1 bytes resumed across calls, scan never beyond max, cut exactly at the reported boundary or at max, length / hash reset on a cut, length accumulates otherwise, no panic. Kani: bounded model checking of the real Chunker::next for call sequences (300 bytes in one call; 10/20/100 bytes in three calls) and ANY answers of the rolling hash (recording oracle) the chunker hashes exactly the bytes from index min-64-1 of each chunk, contiguously across calls, from state 0 after a cut, never beyond max, cuts where the hash says or at max, flushes on final, preserves bytes. Thorough adds the real gear hash on 24 bytes against a reference rule.", "Hash function abstracted by an oracle (fold property of the rolling hash is an argument, not a solver result); target 128 with MINIMUM_CHUNK_DIVISOR=1 via stubbed env; memory-safety checks off (safe Rust)."),
  "C05": ("model_checking", KANI, "kani", "Bounded model checking of MDBShardInfo::chunk_hash_dedup_query_direct over fully symbolic serialized CAS blocks (3 chunks quick, 4 thorough), queries and keys: every answer is truthful.", "blake3 keyed hash replaced by a deterministic mixing stub; CAS block representation invariant assumed; in-memory index and shard manager histories outside."),
  "C07": ("model_checking", KANI, "kani", "Bounded model checking of the chunk header codec for all 2^24 x 2^24 x 3 (length, length, scheme) triples and of BG4 split/regroup (unsafe pointer code, memory checks on) for lengths 1,2,3,8 (13,14,15 thorough).", "LZ4 codecs, chunk payload (de)serialization through std::io::copy and whole-xorb round trips did not get through CBMC (measured) and are outside."),
@@ -19,10 +19,10 @@ C = {
  "C12": ("model_checking", KANI + "; " + MB, "kani+mirsym", "Bounded model checking of the chunk cache's directory-name and file-name parsers on arbitrary byte strings of the stated lengths: no panic, parsed items have non-empty ranges. Mode B over get_impl: an unverified item reaches the data only through the checksum computation, is marked verified only after its checksum compared equal, a mismatch leads to removal and a new lookup.", "fmt stubs; memory-safety checks off (safe Rust, base64 decode); histories of put/get/evict/re-open and CRC detection outside."),
  "C13": ("model_checking", MA, "mirsym", "Inductive step over DiskCache::put_impl's MIR from an arbitrary tracked state (including an item equal to the one being inserted - the state only the duplicate-put interleaving reaches): every item leaving the tracked vector is subtracted with exactly its length; counters change by exactly the removed / inserted amounts around eviction; eviction is asked for exactly the new item's length.", "Calls havocked (incl. writes through &mut arguments); eviction loop and re-open accounting outside; the interleaving itself is replayed natively through a guarded schedule point."),
  "C14": ("model_checking", MA + "; " + MB, "mirsym", "Inductive step of FileDeduper::process_chunks' result loop from an arbitrary state: chunks/bytes counted == consumed, new + deduped == total on every path; merge_in is a field-wise sum; (Mode B) the session metrics are read out only after all upload tasks were joined.", "Dedup answers truthful (C05); calls havocked; the store's own transmitted-byte count taken as given."),
- "C15": ("model_checking", MA + "; " + MB, "mirsym", "Inductive step from an arbitrary state: a chunk appended to the open xorb without cutting first keeps it within MAX_XORB_BYTES / MAX_XORB_CHUNKS (any configured values); the session merges aggregators only when both sums are within the limits; an empty xorb never reaches the store (Mode B). Chunk-header field limits are decided under C07.", "Vec::len / num_bytes / num_chunks report true sizes; a single chunk fits a xorb (C04/C07); 'no unresolved xorb reference' needs the infeasible FileDeduper harness and is outside."),
+ "C15": ("model_checking", MA + "; " + MB, "mirsym", "Inductive step from an arbitrary state: a chunk appended to the open xorb without cutting first keeps it within MAX_XORB_BYTES / MAX_XORB_CHUNKS (any configured values); the byte counter the check reads grows by exactly the appended slice's length and is reset by a cut; the session merges aggregators only when both sums are within the limits; an empty xorb never reaches the store (Mode B); segments with the placeholder xorb hash are always registered for resolution and a cut resolves every registered segment. Chunk-header field limits are decided under C07.", "Vec::len / num_bytes / num_chunks report true sizes; a single chunk fits a xorb (C04/C07); 'no unresolved xorb reference' over whole histories (DataAggregator re-indexing) is outside."),
  "C16": ("other", MB, "mirsym", "Solver-decided ordering / error-propagation obligations over the session's async functions: shards are uploaded only after the xorb join loop drained; the result of every store, shard and join call is consumed by the next `?`; no upload or registration follows an error exit.", "JoinSet and `?` contracts assumed; no fault-injected run (Kani cannot compile tokio); unsat sound because paths are over-approximated."),
  "C17": ("model_checking", MA, "mirsym", "The per-term planning arithmetic of both download writers (MIR, chained for 4 terms quick / 6 thorough) equals 'slice of the concatenated term data' for all 64-bit offsets/ranges and u32 term lengths, is panic free under the server contract, and both writers agree.", "Server contract on the plan; get_one_term returns unpacked_length bytes; disjoint positioned writes commute; cache on/off equivalence and network outside."),
- "C18": ("model_checking", MA, "mirsym", "Load and delete decisions of keyed shards as functions of (expiry, now, grace) for all 64-bit values, from the MIR of the scan closures: loaded only when not past expiry, deleted only after the grace period, never both at one instant.", "tracing / Arc::deref havocked; keyed export and manager collections outside (export harnesses did not fit the time budget)."),
+ "C18": ("model_checking", MA, "mirsym", "Load and delete decisions of keyed shards as functions of (expiry, now, grace) for all 64-bit values, from the MIR of the scan closures: loaded iff not past expiry, deleted iff expiry + grace <= now, never both at one instant. Keyed export: every lookup table's footer count equals (its flag ? collected entries : 0) and entries are collected only under that flag (Mode A). Shard manager: a candidate that fails in one key collection never ends the chunk query (Mode B).", "tracing / Arc::deref havocked; that exported chunk hashes are the keyed form (blake3 FFI) and the manager's registration histories are outside."),
  "C19": ("other", MB, "mirsym", "Solver-decided ordering obligations over the writers' file-system events: files are written under temp names; rename only after flush/close and after the content hash was taken; inputs deleted only after the merged output was written; cache state committed only after close; hence in the process-crash model every prefix leaves only complete files under final names.", "Crash model of the property; call order only (argument provenance not tracked); re-open with leftovers outside."),
 }
 NA = {
